@@ -17,6 +17,8 @@ def invitations_part(ob, facts, failures, coverage, tier, seed):
     I.run(cases)
     checked = bad = 0
     for c in cases:
+        stale = set()                             # (client, g): record left behind by the listed mechanism store-limit-sync-failure; the rest of the history is still judged
+        ev_nid, prev_view = {}, {}                # event -> (group, nostr group id after that commit); client -> view before this call
         wg, first_ok, writer = {}, set(), {}      # w -> group; (client, w) stored; (client, g) -> the invitation whose process_welcome wrote the record last (None: somebody else did since)
         for k, (op, out) in enumerate(zip(c["ops"], c["impl"])):
             t = op.split()
@@ -26,13 +28,17 @@ def invitations_part(ob, facts, failures, coverage, tier, seed):
                 for w in (I.kv(res, "w") or "-").split(","):
                     if w not in ("-", ""):
                         wg[int(w)] = g
+            if t[0] in I.COMMIT_OPS and res.startswith("ok") and I.kv(res, "ev") is not None:
+                ev_nid[int(I.kv(res, "ev"))] = (int(t[2]), I.kv(res, "nid"))
             if len(t) < 2 or not t[1].isdigit():
                 continue
             j = int(t[1])
+            before_groups = I.parse_view(prev_view.get(j, ""))[0]
+            prev_view[j] = view
             hit = None
             for part in view.split():
                 m = re.match(r"G(\d+):a:E(\d+):T[^:]*:ME(\d+|-):", part)
-                if m:
+                if m and (j, int(m.group(1))) not in stale:
                     checked += 1
                     if m.group(3) != m.group(2) and hit is None:
                         hit = m
@@ -45,11 +51,20 @@ def invitations_part(ob, facts, failures, coverage, tier, seed):
                 # — nobody else wrote in between — is a different defect.
                 known = t[0] == "accept" and res == "ok" and wg.get(int(t[2])) == g and writer.get((j, g), "none") != int(t[2])
                 sig = "accept-record-of-other-invitation" if known else "record-not-synced:invitation"
+                # listed mechanism (C06 / C08) store-limit-sync-failure, the door the wrap engine found: the delivered commit rotates
+                # the group's nostr group id ONTO an id another record of this client holds; the commit is merged, the store then
+                # refuses the synced record (Unprocessable).  Only that: the call is this deliver, its result is unprocessable, the
+                # event is a commit of THIS group, and its new id is carried by another record in the view before the call.
+                if t[0] == "deliver" and res == "unprocessable" and ev_nid.get(int(t[2]), (None, None))[0] == g and any(
+                        g2 != g and "norecord" not in p2 and (I.gfield(p2, "I") or "").split("!")[0] == ev_nid[int(t[2])][1] for g2, p2 in before_groups.items()):
+                    sig = "store-limit-sync-failure"
                 if sum(1 for f in failures if f["signature"] == sig) < 3:
                     failures.append({"kind": "oracle", "signature": sig,
                                      "what": f"{c['id']} step {k} `{op}`: group {g} is Active with record epoch {hit.group(2)} while its MLS state is at epoch {hit.group(3)}",
                                      "replay_body": I.case_text(c, k, "Active group whose stored record does not mirror the MLS state"), "case": c, "step": k})
-                break
+                if sig != "store-limit-sync-failure":
+                    break
+                stale.add((j, g))
             # who wrote the record of which group: a first-time (stored) invitation; anything else this client does to the group
             if t[0] == "process" and res.startswith("ok") and int(t[2]) in wg and (j, int(t[2])) not in first_ok:
                 first_ok.add((j, int(t[2]))); writer[(j, wg[int(t[2])])] = int(t[2])
